@@ -284,12 +284,11 @@ def run_vcase(case, seed=0, case_timeout=300, want_post=True):
         modes = {"symbolic": ["symbolic"], "zero": ["zero"], "symbolic-then-zero": ["symbolic", "zero"]}[case.eps]
         final = None
         for i, mode in enumerate(modes):
-            r = _run_mode(case, seed, mode, want_post)
+            probe = i + 1 < len(modes)      # not the last mode: stop at the first obligation that does not discharge
+            r = _run_mode(case, seed, mode, want_post, probe=probe)
             final = r
-            if not r["failures"] and not r["undecided"] and not r["errors"]:
+            if not r["failures"] and not r["undecided"] and not r["errors"] and not r.get("probe_failed"):
                 break
-            if i + 1 < len(modes):
-                continue
         for k in ("obligations", "discharged", "backends", "paths", "solver_s", "failures", "undecided", "errors",
                   "notes", "status", "faithful", "sample", "eps_mode"):
             res[k] = final[k]
@@ -305,13 +304,14 @@ def run_vcase(case, seed=0, case_timeout=300, want_post=True):
     return res
 
 
-def _run_mode(case, seed, eps_mode, want_post):
+def _run_mode(case, seed, eps_mode, want_post, probe=False):
     out = {"obligations": 0, "discharged": 0, "backends": {}, "paths": 0, "solver_s": 0.0, "failures": [],
            "undecided": [], "errors": [], "notes": [], "status": "ok", "faithful": 0, "sample": None, "eps_mode": eps_mode}
     rng = random.Random("%s|%r|%d" % (case.name, sorted(case.key.items(), key=lambda kv: kv[0]), seed))
     sess, leafsyms, results, ex = _symbolic_paths(case, eps_mode)
     out["paths"] = len(results)
     base = list(sess.pre) + list(sess.axioms)
+    pre_ax = sess.relevant_axioms(list(sess.pre))
     if eps_mode == "zero":
         out["notes"].append("guard-consistent at eps=0 (cpu_ops.epsilon := 0)")
 
@@ -333,7 +333,7 @@ def _run_mode(case, seed, eps_mode, want_post):
 
     out_shape = None
     for pi, (r, pc) in enumerate(results):
-        assumptions = base + list(pc)
+        path_ax = sess.relevant_axioms(list(pc))
         if out_shape is None and r.status in ("ok", "backward-raised"):
             out_shape = tuple(r.out.shape)
         # ---- completes
@@ -382,8 +382,13 @@ def _run_mode(case, seed, eps_mode, want_post):
                 out["obligations"] += 1
                 a = S.of(gimpl[k])
                 b = spec[k]
-                v = prove_equal(a, b, assumptions, timeout_ms=case.timeout_ms)
+                goal_ax = sess.relevant_axioms([a.n, a.d, b.n, b.d])
+                assumptions = base + list(pc) + pre_ax + path_ax + goal_ax
+                v = prove_equal(a, b, assumptions, timeout_ms=(2000 if probe else case.timeout_ms), use_cvc5=not probe)
                 out["solver_s"] += v.seconds
+                if probe and v.status != "discharged":
+                    out["probe_failed"] = True
+                    return out
                 if v.status == "discharged":
                     bump(v.backend)
                     if out["sample"] is None and v.backend not in ("syntactic",):
